@@ -12,16 +12,61 @@ CVC5 = os.environ.get("VERIF_CVC5", "cvc5")
 
 
 def script(assertions, want_model=True):
+    """SMT-LIB2 text. Terms are DAGs with heavy sharing (unrolled loops, ite chains): every shared
+    non-leaf node becomes a `define-fun` so the text stays linear in the DAG size."""
     fv = {}
     for a in assertions:
         tm.free_vars(a, fv)
+    # reference counts over the DAG (by object identity)
+    refs = {}
+    order = []  # post-order of distinct nodes
+    seen = set()
+    for a in assertions:
+        stack = [(a, False)]
+        while stack:
+            x, done = stack.pop()
+            if done:
+                order.append(x)
+                continue
+            refs[id(x)] = refs.get(id(x), 0) + 1
+            if id(x) in seen:
+                continue
+            seen.add(id(x))
+            stack.append((x, True))
+            if x.op not in ("const", "var"):
+                for c in x.args:
+                    stack.append((c, False))
+    names = {}
     lines = ["(set-logic ALL)"]
     if want_model:
         lines.append("(set-option :produce-models true)")
     for name, sort in sorted(fv.items()):
         lines.append(f"(declare-const |{name}| {'Int' if sort == 'I' else 'Bool'})")
+
+    def render(x):
+        if id(x) in names:
+            return names[id(x)]
+        if x.op == "const":
+            v = x.args[0]
+            if x.sort == "B":
+                return "true" if v else "false"
+            return str(v) if v >= 0 else f"(- {-v})"
+        if x.op == "var":
+            return "|" + x.args[0] + "|"
+        return "(" + x.op + " " + " ".join(render(c) for c in x.args) + ")"
+
+    k = 0
+    for x in order:
+        if x.op in ("const", "var"):
+            continue
+        if refs.get(id(x), 0) >= 2:
+            body = render(x)
+            k += 1
+            nm = f"|d!{k}|"
+            lines.append(f"(define-fun {nm} () {'Int' if x.sort == 'I' else 'Bool'} {body})")
+            names[id(x)] = nm
     for a in assertions:
-        lines.append(f"(assert {a.smt()})")
+        lines.append(f"(assert {render(a)})")
     lines.append("(check-sat)")
     if want_model and fv:
         lines.append("(get-value (" + " ".join(f"|{n}|" for n in sorted(fv)) + "))")
